@@ -212,7 +212,7 @@ def run(tier, seed):
         for c in json.load(open(corpus)):
             c.pop("note", None)
             scenarios.append(Scenario.from_dict(c))
-    n = 700 if tier == "quick" else 12000
+    n = 2000 if tier == "quick" else 20000
     for _ in range(n):
         scenarios.append(gen_scenario(ck.rng, tier))
     reqs, idx = [], []
